@@ -144,32 +144,8 @@ func (p *Prog) factHolds(in ssa.Instruction, match func(g Guard) bool, depth int
 				outcome = 3
 			}
 		} else if x, isNil, ok := nilFact(g); ok {
+			call, resIdx = callOfValue(x)
 			switch y := x.(type) {
-			case *ssa.Call:
-				call = y
-			case *ssa.Extract:
-				call, _ = y.Tuple.(*ssa.Call)
-				resIdx = y.Index
-			case *ssa.UnOp:
-				// a local variable holding one call's result (err = check(…))
-				if al, isAl := y.X.(*ssa.Alloc); isAl {
-					n := 0
-					for _, ref := range *al.Referrers() {
-						if st, isSt := ref.(*ssa.Store); isSt && st.Addr == ssa.Value(al) {
-							n++
-							switch z := st.Val.(type) {
-							case *ssa.Call:
-								call = z
-							case *ssa.Extract:
-								call, _ = z.Tuple.(*ssa.Call)
-								resIdx = z.Index
-							}
-						}
-					}
-					if n != 1 {
-						call = nil
-					}
-				}
 			case *ssa.Phi:
 				// err reused: every non-nil-constant edge is a result of the same helper call — keep it simple: one call
 				var only *ssa.Call
